@@ -218,6 +218,8 @@ func vh_send_snapshot() {
 	} else if respTerm > sent.Term {
 		vCover("snap.stale-term")
 		vAssert(stop && len(s.stepDown) == 1 && s.nextIndex == preNext && postMatch == preMatch, "C01.snap.newer-term-steps-down")
+		// a leader that ignores the higher term in a refusal re-sends the same snapshot for ever and the follower never catches up
+		vAssert(stop && len(s.stepDown) == 1, "C12.snap.newer-term-in-refusal-ends-this-leadership")
 		vAssert(vf.notifyCh == nil, "C09.snap.stale-term-votes-verify-down")
 	} else if respOK {
 		vCover("snap.success")
@@ -508,4 +510,38 @@ func vh_ae_faults() {
 	vAssert(vImplies(s.has(li), s.term.Get(li) == lt), "C04.aefault.cached-last-log-term-matches-store")
 	vAssert(r.commitIndex == pre.commit && r.lastApplied == pre.applied, "C05.aefault.no-commit-without-leader-commit")
 	vReach("aefault.end")
+}
+
+// vh_heartbeat_readdress: two heartbeat rounds with the follower re-addressed in between (the real
+// startStopReplication refreshes the replication routine's peer): the second heartbeat goes to the new
+// address, so a follower that is only reachable at its old address no longer refreshes the lease. C13.
+func vh_heartbeat_readdress() {
+	r, env := vNewRaft("L", vRaftOpts{n: 2, w: 1, shaped: true})
+	vAssume(vInvBasic(r, env))
+	vMakeLeader(r, "L", 0)
+	peer := r.configurations.latest.Servers[1]
+	s := r.leaderState.replState[peer.ID]
+	s.notifyCh <- struct{}{}
+	var targets []ServerAddress
+	env.trans.onAppend = func(id ServerID, a *AppendEntriesRequest, resp *AppendEntriesResponse) error {
+		targets = append(targets, env.trans.lastTarget)
+		resp.Term, resp.Success = a.Term, true
+		return nil
+	}
+	vTimerMode(0)
+	stopCh := make(chan struct{})
+	vRunUntilBlocked(func() { r.heartbeat(s, stopCh) })
+	newAddr := ServerAddress(vStr("newAddr"))
+	vAssume(newAddr != "" && newAddr != peer.Address && newAddr != r.localAddr)
+	r.configurations.latest.Servers[1].Address = newAddr
+	r.startStopReplication()
+	vAssert(s.peer.Address == newAddr, "C13.readdress.replication-routine-learns-new-address")
+	s.notifyCh <- struct{}{}
+	vQuiesce()
+	vAssert(len(targets) == 2, "C13.readdress.one-heartbeat-per-notify")
+	if len(targets) == 2 {
+		vAssert(targets[0] == peer.Address, "C13.readdress.first-heartbeat-to-old-address")
+		vAssert(targets[1] == newAddr, "C13.readdress.heartbeat-follows-readdressed-peer")
+	}
+	vReach("readdress.end")
 }
